@@ -71,7 +71,10 @@ def analyse(prog, ctx_cfg) -> list:
                     vexpr = cands[0]
                 elif len(defs) == 1 and defs[0].kind == 'stmt' and isinstance(defs[0].ast, ast.Assign):
                     vexpr = defs[0].ast.value
-            if not any(isinstance(x, ast.Call) for x in ast.walk(vexpr)):
+            computed = any(isinstance(x, ast.Call) for x in ast.walk(vexpr)) or \
+                any(isinstance(x, ast.Subscript) and not isinstance(x.slice, ast.Constant) or isinstance(x, ast.IfExp)
+                    for x in ast.walk(vexpr))
+            if not computed:
                 continue            # an index (object stored under its own key), not a memo
             direct = _names(vexpr)
             # transitive closure through local definitions (used for caches that outlive the call)
